@@ -171,6 +171,20 @@ ext("C12", "; requests overtaking one another at the rate limiter", " Ingress ra
 ext("C15", "", " Unknown targets include near-miss spellings of the route's own targets (letter case, trailing slash, one character more or less).")
 ext("C18", "; management mutation on top of an unreloaded restart-required edit", " W-mgmt variant: the file is ahead of the running configuration by an edit that needs a restart; the mutation is refused, the operator's content is back, running behaviour as before.")
 
+# waves 9-11 (third build session)
+ext("C06", "; answers whose body breaks off", " Status answers may arrive with status line and headers and a body that ends short of its Content-Length: the classification goes by the status.")
+ext("C07", "; awkward header values", " Store, diff and pull worlds store header values with supplementary-plane and private-use runes, U+2028, quotes and backslashes, text that looks like an escape; store and diff worlds also values that are not UTF-8 (recorded finding: SQLite coerces them to U+FFFD).")
+ext("C13", "; backlog statistics and awkward header values", " Stats is compared in full (oldest / earliest / age / lag, per-bucket top list) with more than ten backlog buckets; header values as in C07.")
+ext("C11", "", " Authorization values in which a valid token is one of several fields (trailing word, trailing second token, trailing scheme, leading word) are refused.")
+ext("C16", "", " Resolver answers include the first, last and just-outside addresses of every address class dns_rebind_protection names (IPv4, IPv6, IPv4-mapped).")
+ext("C20", "", " Every allowed mutating tool is also called with near misses of the principal as actor (letter case, one character short or more).")
+ext("C09", "; expiry out of arrival order", " A staggered-expiry idiom: the nonce of a request signed almost a tolerance ago is used again after it lapsed and replayed while an older-arrived entry lapses.")
+ext("C10", "", " Peers appear as IPv4-mapped addresses with port, at the last address of a remote_ip prefix and at the first one past it.")
+ext("C15", "; two publishes racing for one id", " Publish world race step: two publishes with one id in common in flight at once under statement-level interleaving: a 2xx publish has all its items once, a refused one none of its own, never two 2xx. Unknown routes include near-miss spellings of configured routes.")
+ext("C05", "; store failure and retry on the Pull API", " Pull world faultretry: a nack / ack / dead-letter whose store call fails once is not answered 2xx and changes nothing; the retry settles a lease that is still current (the message comes back with its delay).")
+ext("C04", "; store failure and retry on the Pull API", " Pull world faultretry as in C05: the retry of a call whose store operation failed is judged like any call (no success from the idempotency window for something that never happened).")
+ext("C18", "", " The os reroute follows calls: file operations moved into helpers reachable from the rewritten functions stay visible to the simulated file system.")
+
 NA = {
  "C19": "config Parse/Format/Compile are pure functions of the text: no schedule, clock, I/O or fault for a simulation to decide (DESIGN.md §5)",
 }
